@@ -108,7 +108,7 @@ def text_of(v):
 
 
 _ISODATE = re.compile(r'^\s*(\d{4})-(\d{1,2})-(\d{1,2})\s*$')
-_NUMTXT = re.compile(r'^\s*[+-]?(\d+(\.\d*)?|\.\d+)([eE][+-]?\d+)?\s*$')
+_NUMTXT = re.compile(r'^\s*[+-]?(\d+(\.\d*)?|\.\d+)([eE][+-]?\d+)?\s*$', re.ASCII)
 
 
 def to_num(v):
@@ -706,6 +706,9 @@ def _value(ev, a, sh, at):
             from fractions import Fraction
             return float(Fraction(int(m.group(1)) * 3600 + int(m.group(2)) * 60 + int(m.group(3) or 0), 86400))
         if t and not any(ch.isdigit() for ch in t):
+            raise XlError('#VALUE!')
+        if '_' in t or any(ch.isdigit() and not ch.isascii() for ch in t):
+            # an underscore between digits, digits of another script: spellings of Python's int(), of no spreadsheet's number format
             raise XlError('#VALUE!')
         raise NoOpinion('VALUE of a text in a national number / date format')
     if not isinstance(v, str):
